@@ -396,6 +396,7 @@ def run(prog, run):
     rule_offset_sign(prog, run)
     rule_reader_shape(prog, run)
     rule_attr_before_content(prog, run)
+    rule_positional_records(prog, run)
 
 
 # --------------------------------------------------------------------------- R3
@@ -1268,3 +1269,86 @@ def rule_attr_before_content(prog, run):
         else:
             run.ok(rid, f.loc(), 'attributes precede content on all paths', nontrivial=False)
     return n_fns
+
+
+# --------------------------------------------------------------------------- R15: positional construction agrees with the writer, member by member
+def rule_positional_records(prog, run):
+    rid = run.rule('C01.R15', 'a record that a reader builds positionally (T{ a, b, c } - the i-th expression initialises the i-th declared member) gets, for each member, the element / '
+                              'attribute its own writer emits for that member: a name that is read into member i but written for member j means the two values change places on '
+                              'every serialize/parse round (reordering the declaration is enough to cause it)', floor=8)
+    n = 0
+    for f in prog.fns.values():
+        if f.entry is None or '/src/' not in f.file or f.raw.get('dependent'):
+            continue
+        for i, node in enumerate(f.nodes):
+            if node['k'] != 'initlist' or len(node.get('elems', [])) < 2:
+                continue
+            T = (node.get('t') or '').replace('const ', '').strip()
+            rec = prog.records.get(T)
+            if not rec or len(rec.get('fields', [])) < len(node['elems']):
+                continue
+            writers = [w for w in prog.fns.values() if w.record == T and w.entry is not None and not w.is_lambda and any('QXmlStreamWriter' in (p_.get('t') or '') for p_ in w.params)]
+            if not writers:
+                continue
+            # names read per element of the initialiser
+            read = []
+            for e in node['elems']:
+                names = set()
+                for j in f.walk(e):
+                    m = f.nodes[j]
+                    if m['k'] == 'call' and (f.cname(m) or '') in codec.R_API:
+                        kind, ni = codec.R_API[f.cname(m)]
+                        try:
+                            for nm in codec.names_of(f, m['args'][ni]):
+                                if nm[0] == 'lit' and nm[1]:
+                                    names.add((kind, nm[1]))
+                        except IndexError:
+                            pass
+                read.append(names)
+            if not any(read):
+                continue
+            count = {}
+            for s_ in read:
+                for nm in s_:
+                    count[nm] = count.get(nm, 0) + 1
+            # members the writer associates with each name: mentioned in the value or in the condition that guards the write
+            assoc = {}
+            fq = {(x.get('qname') or T + '::' + x['name']): k for k, x in enumerate(rec['fields'])}
+            for w in writers:
+                for j, c in w.calls():
+                    spec = codec.W_API.get(w.cname(c) or '')
+                    if not spec:
+                        continue
+                    kind, ni, vi = spec
+                    try:
+                        nms = codec.names_of(w, c['args'][ni])
+                    except IndexError:
+                        continue
+                    members = set()
+                    srcs = ([c['args'][vi]] if vi is not None and len(c.get('args', [])) > abs(vi) - (1 if vi < 0 else 0) else []) + [x for x, pol in w.atomic_assertions_at(j)]
+                    for sx in srcs:
+                        for z in w.walk(sx):
+                            mz = w.nodes[z]
+                            if mz['k'] == 'mem' and mz.get('f') in fq:
+                                members.add(fq[mz['f']])
+                    for nm in nms:
+                        if nm[0] == 'lit' and nm[1] and members:
+                            assoc.setdefault((kind, nm[1]), set()).update(members)
+            n += 1
+            run.instance(rid)
+            bad = None
+            for k, names in enumerate(read):
+                for nm in names:
+                    if count[nm] > 1 or nm not in assoc:
+                        continue            # the same name read for several members (distinguished by namespace), or written through a sub-object
+                    if k not in assoc[nm]:
+                        bad = (k, nm, sorted(assoc[nm]))
+            if bad:
+                k, nm, js = bad
+                run.violation(rid, '%s#member-order:%s' % (T, rec['fields'][k]['name']), f.loc(i),
+                              '%s builds %s positionally: the %s "%s" is read into member %d (%s), but the writer of %s emits it for %s - after one serialize/parse round the two '
+                              'members have exchanged their values' % (f.display()[:50], T.split('::')[-1], 'element' if nm[0] == 'elem' else 'attribute', nm[1], k,
+                                                                       rec['fields'][k]['name'], T.split('::')[-1], ', '.join(rec['fields'][x]['name'] for x in js)))
+            else:
+                run.ok(rid, f.loc(i), '%s{...}: every name read into a member is the one written for it' % T.split('::')[-1])
+    return n
